@@ -275,7 +275,7 @@ func c10GenMulti(r *vc.Rand, idx int, prefix string) *atCase {
 	c := &atCase{Name: fmt.Sprintf("%s%04d", prefix, idx), Feat: map[string]string{}}
 	nt := 1 + r.Intn(2)
 	for k := 0; k < nt; k++ {
-		pk := []string{"int", "autoinc", "composite", "varchar"}[r.Intn(4)]
+		pk := []string{"int", "autoinc", "composite", "varchar", "composite_txt"}[r.Intn(5)]
 		c.Tables = append(c.Tables, atGenTable(r, fmt.Sprintf("%s%04dt%d", prefix, idx, k), pk, atSafeKinds, 2+r.Intn(2), 4+r.Intn(3), false))
 	}
 	grp := atGroup{Explicit: true}
